@@ -59,13 +59,18 @@ claim("C20",
       "Lean 4 proof (sorted-permutation uniqueness) + multi-process differential oracle")
 
 claim("C06",
-      "PARTIAL proof. Lean 4 theorem analysis_covers_fields: for every expression form, every data field read anywhere in it is the root of a path recorded by the "
-      "model of the dependency analysis of to_proc_gen_rec (mutual induction over the AST incl. the main/spread accumulator of array literals); the analysis model and "
-      "its printers are tied to the implementation by byte-equality of the guard and template-data tree expressions. The value-level statement is checked by the "
-      "oracle: create;update…(trees covering the diff by construction: exact/coarsened/true) vs fresh create under the real ProcGenWrapper/RangeListManager.",
-      "Trusted: Lean kernel; axioms ⊆ {propext, Classical.choice, Quot.sound}; harness hook proc_gen_expr; node runner + stub backend; oracle-built update trees. "
-      "guard_sound / update_refines are NOT proved yet (oracle only); RangeListManager is executed, not modelled.",
-      "Lean 4 proof (partial: dependency-root coverage) + update-vs-create oracle under the real runtime")
+      "PARTIAL proof. Lean 4 theorems: (1) analysis_covers_fields: for every expression form, every data field read anywhere in it is the root of a path recorded by the "
+      "model of the dependency analysis of to_proc_gen_rec (mutual induction over the AST incl. the main/spread accumulator of array literals); (2) guard_sound: for every "
+      "expression without an object / array literal (data fields, scope variables, literals, member and index chains, calls, unary / binary operators, ??, string "
+      "conversion, conditionals, at any nesting), if the update-path tree covers the difference between old and new data (and the scope trees cover the scope "
+      "variables' changes) and no operand of the emitted guard is truthy, the expression has the same value before and after - over the same analysis function whose "
+      "printed guard and template-data tree expressions are compared byte for byte with the implementation. The remaining value-level cases (object / array literals, "
+      "the tag / list level) are checked by the oracle: create;update...(trees covering the diff by construction: exact/coarsened/true) vs fresh create under the real "
+      "ProcGenWrapper/RangeListManager.",
+      "Trusted: Lean kernel; axioms of guard_sound = {propext, Quot.sound}, of the rest within {propext, Classical.choice, Quot.sound}; harness hook proc_gen_expr; node runner + stub backend; "
+      "oracle-built update trees; the value semantics of guard_sound (atoms / objects, null-safe member reads, operators and calls as pure functions, hoisted temporaries "
+      "hold the new index / condition values). update_refines is NOT proved (oracle only); RangeListManager is executed, not modelled.",
+      "Lean 4 proof (partial: dependency-root coverage + value-level guard soundness without object/array literals) + update-vs-create oracle under the real runtime")
 claim("C07",
       "PARTIAL proof. Lean 4 theorems about the model of BindingMapCollector as a state machine over add/disable/disable_all: advertised_iff (advertised iff collected, never "
       "disabled, map not disabled — in any order), disabled_stays_disabled, size_eq_count; model tied by differential runs through a cfg hook. Oracle: for every advertised "
@@ -212,7 +217,7 @@ def main():
             guard="glass_easel_verif",
             enable="RUSTFLAGS='--cfg glass_easel_verif' (set in /verif/harness/.cargo/config.toml; the harness path-depends on /repo's crates)",
             baseline_off_cmd="cd /repo && cargo test --workspace --no-fail-fast --offline",
-            source_commits=["bbcb615", "d53265e", "7d9763f", "d283a3d", "b84591b"],
+            source_commits=["bbcb615", "d53265e", "7d9763f", "d283a3d", "b84591b", "058a579"],
             add_only=True,
         ),
         engines=[dict(name="lean4-model-proof", path="/verif/lean",
